@@ -4,6 +4,7 @@
 EXTENDS ConstExprEnv, Json, CSV, IOUtils
 
 Lits2 == {2, -3}
+TInitsAll == {<<-1, FALSE>>, <<5, FALSE>>, <<300, FALSE>>, <<70000, FALSE>>, <<0, TRUE>>, <<3, TRUE>>}
 
 DumpFile == IF "VERIF_DUMP" \in DOMAIN IOEnv THEN IOEnv.VERIF_DUMP ELSE ""
 
